@@ -1,7 +1,7 @@
 (* Lexing the whole text MIR_output writes: lex_all (p_ctx ms) = tk_ctx ms ++ [TEOF]. *)
 From Coq Require Import List ZArith NArith Bool String Lia.
 From MirV Require Import Base.W64 Mir.Opcode C11.Tables C11.Ast C11.BinIO C11.BinIOProofs C10.TextOut C10.TextScan C10.TextProofs
-  C10.LexProofs C10.TextTokens C10.VarsLayout C10.ParseProofs.
+  C10.LexProofs C10.HexProofs C10.TextTokens C10.VarsLayout C10.ParseProofs.
 Import ListNotations.
 Local Open Scope Z_scope.
 Local Notation length := List.length.
@@ -113,6 +113,13 @@ Section Lexing.
     intros Hws Hu rest Hr. apply lreaches_tok; try assumption; try discriminate.
     - destruct (p_nat_nonempty u) as (d & ds & ->); [destruct Hu; assumption | cbn; lia].
     - intros f _. now apply scan_token_uint.
+  Qed.
+
+  Lemma lexS_hex ws u : is_ws ws -> in_u64 u -> lexS (ws ++ str "0x" ++ p_hex u) [TInt (s64 u)].
+  Proof.
+    intros Hws Hu rest Hr. apply lreaches_tok; try assumption; try discriminate.
+    - cbn; lia.
+    - intros f _. rewrite <- app_assoc. now apply scan_token_hex.
   Qed.
 
   Lemma float_lexeme_nonempty body : float_lexeme body -> (0 < length body)%nat.
@@ -497,15 +504,15 @@ Section Lexing.
   Definition cel_ok (t : mtype) (z : Z) : Prop :=
     match t with
     | TI8 | TI16 | TI32 | TI64 => in_s64 z
-    | TU8 | TU16 | TU32 | TU64 => in_u64 z
+    | TU8 | TU16 | TU32 | TU64 | TP => in_u64 z       (* p data prints as 0x...: HexProofs.v *)
     | TF => okF z | TD => okD z | TLD => okLD z
-    | TP | TBLK _ | TRBLK | TUNDEF => False           (* p data prints as 0x...: hexadecimal literals are not covered *)
+    | TBLK _ | TRBLK | TUNDEF => False
     end.
 
   Lemma lex_el ws t z : is_ws ws -> cel_ok t z -> lexS (ws ++ p_el fF fD fLD t z) (tk_el t z).
   Proof.
     intros Hws Hok. destruct t; cbn [cel_ok p_el tk_el] in *; try contradiction;
-      try (now apply lexS_int); try (now apply lexS_uint).
+      try (now apply lexS_int); try (now apply lexS_uint); try (now apply lexS_hex).
     - destruct Hok as (body & E & Hl & Hp). rewrite E, <- Hp. apply lexA_S. now apply lexA_float.
     - destruct Hok as (Hl & Hp). rewrite <- Hp at 2. now apply lexS_double.
     - destruct Hok as (body & E & Hl & Hp). rewrite E, <- Hp. apply lexA_S. now apply lexA_ldouble.
